@@ -3,6 +3,7 @@ C13 (extension) — a keyed write that fails half-way under ANY fault plan leave
 an admissible abstract state, and everything keeps working (`Lemmas/CrashRefine.lean`, statement 4).
 -/
 import Cacache.Lemmas.CrashRefine
+import Cacache.Lemmas.FaultStrict
 
 namespace Cacache.C13x
 open Prog CacheRefine CrashRefine
@@ -41,5 +42,51 @@ theorem fault_then_continue (post : List (Env × COp)) (env : Env) (fl : Flavour
         (cRunOps cfg cache post (runFault env plan (writeStream cfg cache fl (some key) o chunks) fs 0).2.1).2 := by
   obtain ⟨m', h1, h2, _, h4⟩ := fault_then_post cfg cache post env fl key o chunks fs h hl hw hpost plan
   exact ⟨m', h1, h2, h4⟩
+
+/-! ### "a truthful success": operations that tolerate no error (Lemmas/FaultStrict.lean) -/
+
+open FaultStrict ListRefine in
+/-- **A strict operation that reports success under faults did exactly what the fault-free run does**:
+if every call whose answer is an error makes the result "not ok" (`Strict`), then for every fault plan
+an ok result means that no fault fired: result, filesystem and call trace are those of the healthy run. -/
+theorem fault_ok_is_healthy {α : Type} {ok : α → Prop} {p : Prog α} (hs : Strict ok p)
+    (env : Env) (plan : Nat → Option Fault) (fs : FS) (i : Nat)
+    (h : ok (runFault env plan p fs i).1) :
+    runFault env plan p fs i = run env p fs :=
+  FaultStrict.fault_ok_is_healthy hs env plan fs i h
+
+open FaultStrict ListRefine CacheRefine Refine in
+/-- **`clear` never reports a success it did not achieve** (F26 was its negation in the real code):
+on a healthy, tidy cache an ok answer under ANY fault plan leaves the filesystem of the healthy run —
+nothing below the cache directory, the cache directory itself in place, a healthy, tidy, EMPTY cache. -/
+theorem clear_ok_truthful (cfg : Cfg) (cache : Path) (env : Env) (plan : Nat → Option Fault) (fs : FS) (i : Nat)
+    (hH : Healthy cfg cache fs) (hT : Tidy cfg cache fs)
+    (h : (runFault env plan (clear cache) fs i).1 = .ok ()) :
+    (runFault env plan (clear cache) fs i).2.1 = (run env (clear cache) fs).2.1 ∧
+    (∀ q, cache <+: q → q ≠ cache → (runFault env plan (clear cache) fs i).2.1.get q = none) ∧
+    (runFault env plan (clear cache) fs i).2.1.isDir cache = true ∧
+    Healthy cfg cache (runFault env plan (clear cache) fs i).2.1 ∧
+    absCache cfg cache (runFault env plan (clear cache) fs i).2.1 = AbsCache.empty :=
+  let h' := FaultStrict.clear_ok_truthful cfg cache env plan fs i hH hT h
+  ⟨h'.1, h'.2.2.1, h'.2.2.2.1, h'.2.2.2.2.1, h'.2.2.2.2.2.2⟩
+
+open FaultStrict in
+/-- Removal by address and index insertion with an explicit time are strict; an insertion / removal
+whose time comes from the clock tolerates exactly one error — a failing clock read, which is
+indistinguishable from a clock that reads 0. -/
+theorem removeHash_ok_is_healthy (cache : Path) (sri : Integrity) (env : Env)
+    (plan : Nat → Option Fault) (fs : FS) (i : Nat)
+    (h : (runFault env plan (removeHash cache sri) fs i).1 = .ok ()) :
+    runFault env plan (removeHash cache sri) fs i = run env (removeHash cache sri) fs :=
+  FaultStrict.removeHash_ok_is_healthy cache sri env plan fs i h
+
+open FaultStrict in
+theorem delete_ok_clock (cfg : Cfg) (cache : Path) (key : Bytes) (env : Env)
+    (plan : Nat → Option Fault) (fs : FS) (i : Nat)
+    (h : (runFault env plan (delete cfg cache key) fs i).1 = .ok ()) :
+    runFault env plan (delete cfg cache key) fs i = run env (delete cfg cache key) fs ∨
+    runFault env plan (delete cfg cache key) fs i =
+      run { env with clock := 0 } (delete cfg cache key) fs :=
+  FaultStrict.delete_ok_clock cfg cache key env plan fs i h
 
 end Cacache.C13x
